@@ -222,6 +222,36 @@ def check_following(chk, prog, sim):
         chk.discharge(key)
 
 
+PROVIDED = ("set", "follow", "stop_following", "update_following_data", "get_last_request")
+
+
+def check_no_overrides(chk, prog):
+    """The tables B and F are established for the PROVIDED bodies of Settable's methods.  An implementor that overrides one of
+    them replaces that behaviour for its type, so the override is outside what was decided: reported (fail closed) unless the
+    implementor list changes the rule."""
+    key = "F:provided-methods-not-overridden"
+    chk.obligation(key, "no Settable implementor overrides set / follow / stop_following / update_following_data / get_last_request")
+    ok = True
+    n = 0
+    for imp in prog.facts["impls"]:
+        if (imp.get("trait") or "").split("::")[-1] != "Settable":
+            continue
+        n += 1
+        chk.evaluated(1, nontrivial=(key, imp.get("trait_ref", "")))
+        for it in imp.get("items", []):
+            if it["name"] in PROVIDED:
+                f = prog.fns.get(it["did"]) or {}
+                chk.violation("C15.F", "override:%s:%s" % (ty_str(imp["self"]), it["name"]), "%s overrides the provided method Settable::%s (%s): bookkeeping / following for this type is whatever the override does, "
+                              "not the behaviour established for the provided body (exactly one impl_set per set, forwarding exactly the followed getter's present values, ...)"
+                              % (imp.get("trait_ref", ty_str(imp["self"])), it["name"], loc(f.get("span"))), fn=f.get("pretty"), file=loc(f.get("span")))
+                ok = False
+    if n < 4:
+        chk.violation("floor", "C15.settable-impls", "expected >= 4 Settable impls, found %d" % n)
+        ok = False
+    if ok:
+        chk.discharge(key)
+
+
 def check_update_calls(chk, prog, sim):
     """U: 'while following a getter each update forwards ...' needs every Updatable::update of a Settable type to run
     update_following_data (the trait documentation says so: it cannot be done for the implementor).  For each type with
@@ -260,6 +290,13 @@ def check_update_calls(chk, prog, sim):
                 ret = sim.final_value(leaf.state, leaf.value)
                 if isinstance(ret, Enum) and ret.vname == "Err":
                     continue
+                failed = [p for p in leaf.pc if p[0] == "variant" and "update_following_data()" in str(p[1]) and p[2] == "Err"]
+                if failed:
+                    chk.violation("C15.U", "update-swallows-following-error:%s" % tname,
+                                  "%s (%s) returns Ok on a path where update_following_data returned Err (%s): a followed getter's error (or a failing set) is not propagated"
+                                  % (up["pretty"], loc(up["span"]), failed[0][1]), fn=up["pretty"], file=loc(up["span"]))
+                    ok = False
+                    break
                 calls = [e[2] for e in leaf.effects if e[0] == "call" and e[2].endswith("::update_following_data")]
                 if len(calls) < len(insts):
                     chk.violation("C15.U", "update-skips-following:%s" % tname,
@@ -477,6 +514,7 @@ def run(chk):
     check_writers(chk, prog)
     check_following(chk, prog, sim)
     check_update_calls(chk, prog, sim)
+    check_no_overrides(chk, prog)
     check_history_adapter(chk, prog, sim)
     check_time_getters(chk, prog, sim)
     import selftest
